@@ -769,7 +769,10 @@ def run_row(case, T):
         cls = classes[spec["cls"]]
         parent, k2i = mkparent(spec["parent"])
         data = mkdata(spec["dk"], spec["data"])
-        return T.do(cls, parent, mkprocs(spec.get("procs")), k2i, data)
+        r = T.do(cls, parent, mkprocs(spec.get("procs")), k2i, data)
+        if spec["dk"] in ("list", "tuple", "mytuple"):
+            T.raw("fx", ["source-after-init", type(data).__name__, T.c(list(data))])  # the source container must not be written to
+        return r
 
     rows = []
     for spec in case["rows"]:
@@ -1311,6 +1314,13 @@ def run_result(case, T):
         else:
             raise ValueError(op)
     T.fx(logged)
+    # side effects are part of interchangeability: the caller's source rows (a row cache, rows kept by the DBAPI) must be left alone by
+    # BOTH implementations, and reading the same source again must give the same values
+    T.label = "end:source"
+    T.fx([[type(r).__name__, list(r)] for r in data])
+    T.label = "end:reread"
+    T.do(lambda: [show(r) for r in IteratorResult(SimpleResultMetaData(keys, _processors=procs), iter(data)).all()])
+    T.fx([[type(r).__name__, list(r)] for r in data])
 
 
 # ------------------------------------------------------------------ cross-build pickles (Row / immutabledict / OrderedSet)
